@@ -49,6 +49,9 @@ def message_words(repo):
             if fn.endswith(".cpp"):
                 with open(os.path.join(d, fn), errors="replace") as f:
                     for lit in re.findall(r'"((?:\\.|[^"\\\n])*)"', f.read()):
+                        # sentence-like literals only: Token::Match patterns and format strings are not messages
+                        if re.search(r"%\w+%|[|\[\]]", lit) or len(re.findall(r"[A-Za-z]{2,}", lit)) < 3:
+                            continue
                         words.update(re.findall(r"[A-Za-z_][A-Za-z0-9_]*", lit))
         _msgwords = words
     return _msgwords
@@ -311,14 +314,14 @@ def name_table(prog, R):
                     others.update(scope_names(prog, "l", j))
                     others.update(scope_names(prog, "p", j))
             scheme = R["names"].get(role, 0) if role != "g" else 0
-            free = [b for b in names if b not in others and b != "main" and b not in prog.get("fixed_names", [])]
+            free = [b for b in names if b not in others and b != "main"]
             for b in names:
-                if scheme == 0 or b not in free:
+                if scheme == 0 or b == "main":
                     c = b
                 elif scheme == 1:
-                    c = free[(free.index(b) + 1) % len(free)]
+                    c = free[(free.index(b) + 1) % len(free)] if b in free else b
                 else:
-                    rank = free.index(b)
+                    rank = names.index(b)
                     c = "zz%s%s%d" % (role, "zyxwvutsrqponmlkjihgfedcba"[rank % 26], rank)
                 table[(scope, role, b)] = c
     return table
@@ -472,9 +475,9 @@ def validate(prog, repo):
         for role in ROLES_RENAMED:
             for b in scope_names(prog, role, idx if role in ("l", "p") else None):
                 assert b not in KEYWORDS, (prog["name"], b)
-                assert b not in fixed or b in prog.get("fixed_names", []), (prog["name"], "fixed word also renamable", b)
+                assert b not in fixed, (prog["name"], "fixed word also renamable", b)
                 assert not b.startswith("zz"), b
-                assert b not in msgw or b in prog.get("fixed_names", []) or b == "main", (prog["name"], "message word", b)
+                assert b not in msgw or b == "main", (prog["name"], "message word", b)
     R0 = init_rendering()
     for role in ROLES_RENAMED:
         for s in (1, 2):
